@@ -73,6 +73,13 @@ def run(chk):
         classes = [fa.gen_stats(r, ubm, p) for p in per]
         X = [st for Xi in classes for st in Xi]
         y = np.array([k for k, p in enumerate(per) for _ in range(p)])
+        if i % 2 == 1:
+            # labels not grouped by class (interleaved / shuffled sample order); `classes` keeps the true grouping
+            perm = list(range(len(X)))
+            r.shuffle(perm)
+            X = [X[q] for q in perm]
+            y = y[perm]
+            classes = [[X[q] for q in range(len(X)) if y[q] == k] for k in range(K)]
         iters = r.choice([1, 2, 3])
         seed = r.randint(0, 1000)
         m = fa.make_machine("jfa", copy.deepcopy(ubm), rU, rV, em_iterations=iters, random_state=seed)
@@ -94,6 +101,19 @@ def run(chk):
                 break
             prev = cur
         ly = m.finalize_v(X, y, per, n_acc, f_acc)
+        if okv and i % 2 == 0:
+            # call order: after a complete V phase (incl. the final E[y] pass) V is replaced through the public setter;
+            # the next E/M pair must be EM for the NEW V (no stale per-machine cache)
+            m2 = copy.deepcopy(m)
+            Vnew = np.asarray(m2.V) + gen.nprng(r).normal(size=np.asarray(m2.V).shape) * 0.5
+            m2.V = Vnew
+            before = phase_v_marginal(m2, classes)
+            m2.m_step_v([m2.e_step_v(X, y, per, n_acc, f_acc)])
+            after = phase_v_marginal(m2, classes)
+            chk.count(1, key=("V reassigned", rV))
+            if not after >= before - tolr * max(1.0, abs(before)):
+                chk.fail("V phase after assigning a new V: the next EM iteration lowers the marginal likelihood %.12g -> %.12g" % (before, after),
+                         dict(ctx, phase="V", reassigned_V=hexlist(Vnew)))
         ys = [np.asarray(ly[k]) for k in range(K)]
         prev = phase_u_marginal(m, classes, ys)
         traj["U"].append(prev)
